@@ -179,7 +179,13 @@ def eval_case(case: dict) -> dict:
             state = T.has_content(case['content'])
             cnt['chunks'] = 1
             if state is None:
+                # empty strings only: whether that counts as empty content is left open, but
+                # the result is one of the two the statement knows - nothing, or content plus
+                # appendix
                 cnt['unspecified_empty_string_content'] = 1
+                exp = T.ref_lines(case['content']) + T.ref_lines(appendix_enc)
+                if res is not None and res.lines != exp:
+                    _viol(out, 'chunk-differs', case, expected=exp[:20], got=res.lines[:20])
             elif state is False:
                 if res is not None:
                     _viol(out, 'chunk-of-empty-content-not-none', case, got=res.lines[:10])
@@ -197,7 +203,18 @@ def eval_case(case: dict) -> dict:
             pre = T.ref_lines(case['preamble'])
             app = T.ref_lines(case['appendix'])
             if state is None:
+                # as for chunk: either the branch for content or the one for empty content
                 cnt['unspecified_empty_string_content'] = 1
+                resp = T.ref_lines(case['empty_response'])
+                full = pre + T.ref_lines(case['content']) + app
+                if case['all_or_nothing']:
+                    empty = resp or None
+                else:
+                    empty = (pre + resp + app) if (pre or resp) else None
+                got = None if res is None else res.lines
+                if got != full and got != empty and not (got == [] and empty is None):
+                    _viol(out, 'cond_chunk-differs-from-both-branches', case, with_content=full[:20],
+                          without=empty if empty is None else empty[:20], got=got[:20] if got else got)
             elif state:
                 exp = pre + T.ref_lines(case['content']) + app
                 if res is None or res.lines != exp:
